@@ -59,10 +59,27 @@ CHECKS = {
  "C15": ("exploration", "6 C15",
          "Shapes grammar (request shapes, token-endpoint body classes, claim-type classes) enumerated by TLC and replayed; a panic is recovered by the harness and is an event no action of the trace specification accepts as well-formed.",
          "TLC-enumerated shape grammar replayed into real Check; panics and ill-formed verdicts flagged by TLC trace validation"),
+ "C06": ("other", "6 C06",
+         "Entropy.tla is an attacker-knowledge closure over generator classes; TLC shows Secrecy holds exactly for the CSPRNG class. Every derivation action has an executable witness run against the real generator "
+         "built as Check builds it (time-window seed search for math/rand, correlation / repetition / shape tests over thousands of logins, duplicate ids among concurrently built generators), and AuthMonitor judges on system traces that no login "
+         "redirect reuses the state, nonce, PKCE challenge or session id of another login. It decides the modelled generator classes only; the static call-graph clause is not claimed.",
+         "TLC-checked attacker-knowledge model (Entropy.tla) bound to executable attack witnesses + TLC trace validation of value freshness"),
+ "C17": ("model_checking", "6 C17",
+         "ConfigOps.tla states MustReject / the member-wise merge / Resolved over an abstract document; TLC enumerates all documents with up to two deviating field classes (plain, default+override, two overrides, structural cases) and renders each to JSON; "
+         "the real LocalConfigFile.Validate loads every one and TLC judges accepted => not MustReject, merged values as expected, fully resolved, never a panic; mutated shipped fixtures are judged for 'never panics'.",
+         "TLC-enumerated document grammar rendered to JSON, real loader, result judged by TLC (ConfigTrace)"),
  "C18": ("model_checking", "6 C18",
          "AuthFlow with two filters is model-checked for HonouredOnlyByCreator (violated when the store is keyed by id alone, as coded); two-filter configurations x store topologies x cookie renaming x timeouts (TLC-enumerated, incl. override-based configs and Redis DB split) are replayed; "
          "TLC validates creator, own credentials/endpoints/settings and own timeouts. Shared-store findings are known findings.",
          "TLC model checking with the design choice as constant + TLC-enumerated two-filter histories + TLC trace validation"),
+ "C19": ("model_checking", "6 C19",
+         "SecretSync.tla models Secrets of the controller's and of another namespace, deletion held by a finalizer, missing/empty keys and the filter->reference map; TLC checks OnlyReferencing and prints one event history per transition of the state graph plus random walks; "
+         "each is applied to controller-runtime's fake client and the real Reconcile, and TLC validates the secret held by every filter after every event; start-up refusal of cross-namespace references is checked.",
+         "TLC state-graph-covering histories + random walks replayed into real Reconcile + TLC trace validation (SecretTrace)"),
+ "C20": ("model_checking", "6 C20",
+         "TLSTrust.tla models the pooled TLS configurations, the CA file and its watchers; TLC shows Rotation fails with one watcher per file (the repaired defect) and holds with one per configuration; transition-covering histories and random walks are replayed "
+         "against the real pool with real TLS handshakes (through NewHTTPClient) to servers certified by the old and the new CA; TLC judges trust, skip-verify precedence, sharing and watcher count with a set-valued oracle that tolerates refresh timing.",
+         "TLC model checking of TLSTrust + histories replayed with real TLS handshakes + TLC trace validation (TLSTrace)"),
 }
 
 NOT_APPLICABLE = {
@@ -106,9 +123,9 @@ def main():
             "add_only": True,
         },
         "engines": [
-            {"name": "tlc-exhaustive", "path": "specs/AuthFlow.tla specs/AuthFlowScn.tla specs/Families.tla specs/SessionMap.tla specs/DispatchGen.tla", "serves_properties": sorted(CHECKS), "kind_free_text": "TLC model checking of the design specifications; enumerates scenarios / grammars / state-graph transitions"},
+            {"name": "tlc-exhaustive", "path": "specs/AuthFlow.tla specs/AuthFlowScn.tla specs/Families.tla specs/SessionMap.tla specs/DispatchGen.tla specs/ConfigGen.tla specs/SecretSync.tla specs/TLSTrust.tla specs/Entropy.tla", "serves_properties": sorted(CHECKS), "kind_free_text": "TLC model checking of the design specifications; enumerates scenarios / grammars / state-graph transitions"},
             {"name": "go-harness", "path": "harness/", "serves_properties": sorted(CHECKS), "kind_free_text": "drivers compiled into /repo's module by build overlay at every invocation: system driver (real ExtAuthZFilter.Check, IdP simulator, gated spy stores), store driver, dispatch driver"},
-            {"name": "tlc-trace", "path": "specs/AuthMonitor.tla specs/StoreTrace.tla specs/DispatchTrace.tla", "serves_properties": sorted(CHECKS), "kind_free_text": "TLC validation of traces recorded from the real code; property monitors evaluated in every state"},
+            {"name": "tlc-trace", "path": "specs/AuthMonitor.tla specs/StoreTrace.tla specs/DispatchTrace.tla specs/ConfigTrace.tla specs/SecretTrace.tla specs/TLSTrace.tla specs/EntropyTrace.tla", "serves_properties": sorted(CHECKS), "kind_free_text": "TLC validation of traces recorded from the real code; property monitors evaluated in every state"},
         ],
         "checks": checks,
         "not_applicable": na,
